@@ -1,6 +1,7 @@
 CONSTANTS
+  Menu <- Kinds
   MaxLen = 2
-  ContOpts <- ContOptsAll
+  ContOpts <- ContOptsMain
   Envs <- EnvsTwo
 SPECIFICATION Spec
 INVARIANTS
